@@ -20,6 +20,10 @@ var kinds = map[string]kind{
 	"prod":  {genProd, runProd},
 	"idem":  {genIdem, runIdem},
 	"cons":  {genCons, runCons},
+	"grp":   {genGrp, runGrp},
+	"cmt":   {genCmt, runCmt},
+	"txn":   {genTxn, runTxn},
+	"eos":   {genEos, runEos},
 	"ackr":  {genAckr, runAckr},
 	"share": {genShare, runShare},
 }
